@@ -905,6 +905,10 @@ TRACE_HEADER = ('From Coq Require Import List Bool ZArith PrimFloat.\nRequire Im
                 'Import ListNotations.\nOpen Scope float_scope.\n')
 
 
+class Unobservable(Exception):
+    pass
+
+
 MAXITER = [100]          # loop bound read from the source by the translator (n == N exit)
 
 
@@ -915,6 +919,7 @@ def trace_case(SF, c):
     ar = aspect_fun(c['aspect'], Rs)
     sf = SF.ShapeFactor()
     sf.setPrecipitateShape(descr(SF, shape), ar)
+    sf.setAspectRatio(ar)          # (a sphere instance resets the aspect ratio to the scalar 1: make it the function again)
     sf.tol = tol
     log = []
     orig = sf.thermoFactor
@@ -924,7 +929,9 @@ def trace_case(SF, c):
         log.append((float(R), float(v)))
         return v
     sf.thermoFactor = logged
-    r = float(sf._findRcrit(Rs, Rmax))
+    r = float(sf.findRcrit(Rs, Rmax))        # public entry; for a callable aspect ratio this is the bisection
+    if len(log) < 3:
+        raise Unobservable('the bisection does not evaluate the thermodynamic factor through self.thermoFactor (%d calls seen)' % len(log))
     iters = len(log) - 3
     return {'table': log, 'r': r, 'iters': iters, 'found': iters < MAXITER[0], 'Rs': Rs, 'Rmax': Rmax, 'tol': tol}
 
@@ -946,6 +953,8 @@ def run_traces(ctx, quick):
         c = gen_trace_case(ctx.rng, i)
         try:
             t = trace_case(SF, c)
+        except Unobservable as e:
+            raise RuntimeError(str(e))          # the tie cannot be observed: reported without input by the caller
         except Exception as e:
             cases.append((c, None, 'implementation raised %s: %s' % (type(e).__name__, e)))
             continue
